@@ -461,6 +461,68 @@ def rule_f7(F):
     return r
 
 
+F8_NEUTRAL = {"new_block", "current_label", "undropped_tmp", "new_tmp", "add_live_variable", "remove_live_variable"}
+
+
+def rule_f8(F):
+    """A frame is dropped where it was filled: once sub-expressions have been evaluated inside a frame of the method,
+    the method does not start another generated block before that frame is popped (otherwise the drops land in a
+    block that only some paths execute, and the paths that skip it leak the frame - e.g. one frame around both
+    operands of `&&`)."""
+    r = RuleResult("C03.F8", "no new generated block is started while a frame of the same method already holds evaluated temporaries", floor=1)
+    summ = frame_summaries(F)
+    by = {b.path for b in lowerer_bodies(F)}
+    for b in lowerer_bodies(F):
+        nbs = [bi for bi, t in mir.calls(b) if hir.last(mir.callee(t)) == "new_block"]
+        if not nbs or not any(is_frame_op(t, "push") or summ.get(mir.callee(t), {0}) != {0} for _, t in mir.calls(b)):
+            continue
+        # state: tuple of 'dirty' flags, one per frame opened by this method and still open
+        sin = {0: {()}}
+        work = [0]
+        steps = 0
+        flagged = {}
+        while work and steps < 20000:
+            steps += 1
+            bi = work.pop()
+            blk = b.blocks[bi]
+            t = blk["term"]
+            cur = set()
+            for st in sin[bi]:
+                if t["k"] != "call":
+                    cur.add(st)
+                    continue
+                name = mir.callee(t)
+                eff = summ.get(name) if name != b.path else None
+                if is_frame_op(t, "push") or eff == {1}:
+                    cur.add(st + (False,))
+                elif is_frame_op(t, "pop") or eff == {-1}:
+                    cur.add(st[:-1])
+                elif hir.last(name) == "new_block":
+                    if any(st):
+                        flagged[bi] = t["line"]
+                    cur.add(st)
+                elif name in by and hir.last(name) not in F8_NEUTRAL and not hir.last(name).startswith("emit_"):
+                    cur.add(tuple(True for _ in st))
+                else:
+                    cur.add(st)
+            cur = {x for x in cur if len(x) <= 4}
+            for sx in mir.succs(blk):
+                old = sin.get(sx, set())
+                new = old | cur
+                if new != old:
+                    sin[sx] = new
+                    work.append(sx)
+        for bi in nbs:
+            states = sin.get(bi, set())
+            if not any(len(st) > 0 for st in states):
+                continue
+            r.inst("%s new_block in an open frame #%d" % (b.path, nbs.index(bi)), {"fn": b.path, "line": b.blocks[bi]["term"]["line"], "frame_already_used": bi in flagged})
+            if bi in flagged:
+                r.bad(b.path, "new_block while a used frame is open", relfile(b.file), flagged[bi],
+                      "a new generated block is started while a frame of this method already holds evaluated temporaries: the drops of that frame are emitted into a block that not every path executes, so the other paths never drop them")
+    return r
+
+
 def rules(ctx):
     F = ctx["F"]
-    return [rule_f1(F), rule_f2(F), rule_f3(F), rule_f4(F), rule_f5(F), rule_f6(F), rule_f7(F)]
+    return [rule_f1(F), rule_f2(F), rule_f3(F), rule_f4(F), rule_f5(F), rule_f6(F), rule_f7(F), rule_f8(F)]
